@@ -18,6 +18,7 @@ func init() {
 	rt.Register("C02_garbage_parity", VerifHarness_C02_garbage_parity)
 	rt.Register("C16_search_arbitrary", VerifHarness_C16_search_arbitrary)
 	rt.Register("C14_step", VerifHarness_C14_step)
+	rt.Register("C20_par2_classify", VerifHarness_C20_par2_classify)
 }
 
 const (
@@ -291,8 +292,18 @@ func VerifHarness_C01_repair_one() {
 	s := buildArchiveMode(oneFileLens(), 2, 1+rt.Choice("g", 2), contentChoice())
 	kind := rt.Choice("kind", dmgKinds)
 	damage(s, 0, kind, "a")
+	blocks := 2
+	// loss of any subset of the recovery files (block 0 in vol00+01, block 1 in vol01+01)
+	if rt.Bool("dropVol0") {
+		s.fs.remove(scnDir + "/s.vol00+01.par2")
+		blocks--
+	}
+	if rt.Bool("dropVol1") {
+		s.fs.remove(scnDir + "/s.vol01+01.par2")
+		blocks--
+	}
 	_, err := checkRepair(s, rt.Bool("doubleCheck"), 1)
-	if lost := expectedLost(s.orig[0], kind); lost >= 0 && lost <= 2 {
+	if lost := expectedLost(s.orig[0], kind); lost >= 0 && lost <= blocks {
 		rt.Assert(err == nil, "damage within recovery capacity: Repair succeeds")
 		rt.Reach("repaired")
 	}
@@ -410,4 +421,17 @@ func VerifHarness_C14_step() {
 		_ = err2
 		rt.Reach("succeeded")
 	}
+}
+
+// C20, library side: a set that needs repair and cannot be repaired makes
+// Repair return an error that the CLI's classifier recognises.
+func VerifHarness_C20_par2_classify() {
+	s := buildArchiveMode([]int{5}, 1, 1, contentDistinct)
+	s.fs.remove(s.paths[0])
+	if rt.Bool("dropVolume") {
+		s.fs.remove(scnDir + "/s.vol00+01.par2")
+	}
+	_, err := repair(s.fs, scnIndex, RepairOptions{NumGoroutines: 1})
+	rt.Assert(err != nil, "two slices lost, at most one block: Repair fails")
+	rt.Assert(RepairErrorMeansRepairNecessaryButNotPossible(err), "the error is classified as repair necessary but not possible")
 }
